@@ -52,8 +52,31 @@ def eval_cases(rng, count, extra):
         scn = item if item is not None else gen_scenario(rng, extra.get('tier', 'quick'))
         plain = S.run_impl({k: v for k, v in scn.items() if not k.startswith('_')})
         gz = [S.run_impl(gz_variant(scn, enc)) for enc in scn['_encodings']]
-        out.append({'scn': scn, 'plain': plain, 'gz': gz})
+        item = {'scn': scn, 'plain': plain, 'gz': gz}
+        if scn.get('_second'):
+            item['second'] = same_path_twice(scn, scn['_encodings'][0])
+        out.append(item)
     return out
+
+
+def same_path_twice(scn, enc):
+    """ the same PATH holding first one gzip content, then another, searched twice in one
+    process; returns (gzip observation of the 2nd content, plain observation of it) """
+    import shutil
+    import tempfile
+    first = gz_variant(scn, enc)
+    second = gz_variant(dict(scn, files=[dict(scn['files'][0], content=scn['_second'])]), enc)
+    tmpdir = tempfile.mkdtemp(prefix='vh-')
+    try:
+        built = S.Built(first, tmpdir)
+        S.run_searcher(built, built.searcher(), S.scenario_K(first))
+        b2 = S.Built(second, tmpdir)                  # new objects, same path, new content
+        got = S.run_searcher(b2, b2.searcher(), S.scenario_K(second))
+    finally:
+        shutil.rmtree(tmpdir, ignore_errors=True)
+    plain2 = {k: v for k, v in second.items()}
+    plain2['files'] = [{k: v for k, v in second['files'][0].items() if k != 'gzip'}]
+    return {'gz': got, 'plain': S.run_impl(plain2)}
 
 
 def strip(obs):
@@ -80,6 +103,18 @@ def run(tier, seed, replay_case=None):
     for it in items:
         scn, plain = it['scn'], it['plain']
         nlines = S.file_bytes(scn['files'][0]).count(b'\n')
+        if 'second' in it:
+            rep.count('same_path_second_content')
+            if strip(it['second']['gz']) != strip(it['second']['plain']):
+                rep.fail('failing-input', scn,
+                         "the same path searched again after it was replaced by another gzip "
+                         "content differs from the plain search of that content: "
+                         f"gzip {it['second']['gz'].get('stats', it['second']['gz'])} plain "
+                         f"{it['second']['plain'].get('stats', it['second']['plain'])}",
+                         impl=strip(it['second']['gz']), spec=strip(it['second']['plain']))
+                for _enc in scn['_encodings']:
+                    next(mruns)
+                continue
         for enc, gz in zip(scn['_encodings'], it['gz']):
             mr = next(mruns)
             rep.evaluations += 1
